@@ -159,23 +159,37 @@ Fixpoint sem (q : senv) (sel : option nat) (stack : list value) (e : expr) {stru
 (* a rule matches iff its condition is defined and true *)
 Definition sem_rule (q : senv) (cond : expr) : bool := holds (sem q None [] cond).
 
-(* well-formedness: every index the compiler emits is in range *)
-Fixpoint wf_expr (nvars nprev : nat) (e : expr) {struct e} : bool :=
+(* typing of iterated list elements: the compiler only accepts integer or bytes elements *)
+Definition nonbool_val (v : value) : bool := match v with VBool _ => false | _ => true end.
+Definition nonbool (ext : list value) (e : expr) : bool :=
+  match e with
+  | EInt _ | EBytes _ | EFilesize | EReadInt _ _ | ECount _ | ECountIn _ _ _ | EOffset _ _ | ELength _ _ => true
+  | EUn UNeg _ | EUn UBnot _ => true
+  | EBin o _ _ =>
+      match o with
+      | OAdd | OSub | OMul | ODiv | OMod | OXor | OBand | OBor | OShl | OShr => true
+      | _ => false
+      end
+  | EExt i => match nth_error ext i with Some v => nonbool_val v | None => true end
+  | EBound _ => true   (* bound identifiers hold integers or bytes *)
+  | _ => false
+  end.
+
+(* well-formedness: every index the compiler emits is in range, iterated lists are typed *)
+Fixpoint wf_expr (ext : list value) (nvars nprev : nat) (e : expr) {struct e} : bool :=
   let wv (v : option nat) := match v with Some i => Nat.ltb i nvars | None => true end in
+  let wf := wf_expr ext nvars nprev in
   match e with
   | EInt _ | EBytes _ | EBool _ | EFilesize | EExt _ | EBound _ => true
-  | EReadInt _ a | EUn _ a | EDefined a => wf_expr nvars nprev a
+  | EReadInt _ a | EUn _ a | EDefined a => wf a
   | ECount v | EVar v => wv v
-  | ECountIn v a b | EVarIn v a b => wv v && wf_expr nvars nprev a && wf_expr nvars nprev b
-  | EOffset v a | ELength v a | EVarAt v a => wv v && wf_expr nvars nprev a
-  | EBin _ l r => wf_expr nvars nprev l && wf_expr nvars nprev r
-  | EAnd l | EOr l => forallb (wf_expr nvars nprev) l
-  | EFor _ se set body =>
-      wf_expr nvars nprev se && forallb (fun i => Nat.ltb i nvars) set && wf_expr nvars nprev body
-  | EForRange _ se f t body =>
-      wf_expr nvars nprev se && wf_expr nvars nprev f && wf_expr nvars nprev t && wf_expr nvars nprev body
-  | EForList _ se elems body =>
-      wf_expr nvars nprev se && forallb (wf_expr nvars nprev) elems && wf_expr nvars nprev body
-  | EForRules _ se _ elems => wf_expr nvars nprev se && forallb (fun i => Nat.ltb i nprev) elems
+  | ECountIn v a b | EVarIn v a b => wv v && wf a && wf b
+  | EOffset v a | ELength v a | EVarAt v a => wv v && wf a
+  | EBin _ l r => wf l && wf r
+  | EAnd l | EOr l => forallb wf l
+  | EFor _ se set body => wf se && forallb (fun i => Nat.ltb i nvars) set && wf body
+  | EForRange _ se f t body => wf se && wf f && wf t && wf body
+  | EForList _ se elems body => wf se && forallb wf elems && forallb (nonbool ext) elems && wf body
+  | EForRules _ se _ elems => wf se && forallb (fun i => Nat.ltb i nprev) elems
   | ERule i => Nat.ltb i nprev
   end.
